@@ -9,6 +9,7 @@
 -/
 import OttoVerif.C13.Model
 import OttoVerif.C05.Spec
+import OttoVerif.C06.Spec
 namespace OttoVerif.C13.Spec
 open OttoVerif.F64 OttoVerif.C13
 
@@ -181,6 +182,14 @@ def atan2Table (y x : FV) : Option FV :=
     (if isFiniteV x then (if signBit y then some (neg piHalf) else some piHalf)
      else if x = .inf false then (if signBit y then some (neg piQuarter) else some piQuarter)
      else (if signBit y then some (neg pi3Quarter) else some pi3Quarter))
+
+/-- The text of a Math result wherever ES5 converts it to a string (String(r), r + "", a property key
+    made from r): §9.8.1 ToString applied to the Number value -/
+def resultText (x : FV) : List Nat := OttoVerif.C06.Spec.toStringNum x
+
+/-- what the embedder gets from Export() for a Math result: a float64 (otto's documented mapping of a
+    Number that is the result of a floating-point builtin; the kind must not depend on the value) -/
+def resultExportType : String := "float64"
 
 /-- §15.1.2.4 isNaN(number): ToNumber, then NaN test -/
 def globalIsNaN (E : C05.Env) (v : C05.Val) : Bool :=
